@@ -174,6 +174,16 @@ func copyFile(fs FS, name string, info fs.FileInfo, sourceFile File) (err error)
 		return err
 	}
 
+	// change the owner before the mode: chown clears the setuid and setgid bits
+	// of a file, even for root and even if the owner stays the same.
+	// might cause a windows error that this function is not implemented by the OS
+	// in a unix fassion
+	// permission and not implemented errors are ignored
+	err = ignoreChownError(chown(info, name, fs))
+	if err != nil {
+		return err
+	}
+
 	newFileInfo, err := fs.Lstat(name)
 	if err != nil {
 		return err
@@ -195,14 +205,6 @@ func copyFile(fs FS, name string, info fs.FileInfo, sourceFile File) (err error)
 		if err != nil {
 			return err
 		}
-	}
-
-	// might cause a windows error that this function is not implemented by the OS
-	// in a unix fassion
-	// permission and not implemented errors are ignored
-	err = ignoreChownError(chown(info, name, fs))
-	if err != nil {
-		return err
 	}
 
 	return nil
